@@ -194,18 +194,7 @@ def rule_r025(ck, prog):
     ck.ob("R02.5", "take_error-callers", not extra and (PB + "save") in callers,
           "take_error is called only from ParserBase::save and the preprocessor's delegation",
           msg="take_error has unexpected callers %s: a message can be consumed before the Error token is saved" % sorted(extra))
-    # (d) in save, take_error is under at(Error); and Option::take is how slots are emptied
-    sb = prog.body(PB + "save")
-    ck.anchor(sb is not None, "ParserBase::save not found")
-    take_blocks = [i for i, t in sb.calls() if (t["f"].get("decl") or Body.callee(t)) == TS + "take_error"]
-    at_blocks = [i for i, t in sb.calls() if Body.callee(t) == PB + "at" and
-                 any((op_const(a) or {}).get("val", "").endswith("TokenKind::Error") or
-                     is_error_kind_local(sb, a) for a in t["args"])]
-    dom = cfg.dominators(sb)
-    ok = bool(take_blocks) and bool(at_blocks) and all(any(a in dom[tb] for a in at_blocks) for tb in take_blocks) \
-        and len(take_blocks) == 1
-    ck.ob("R02.5", "save-guard", ok, "save() fetches the message once, dominated by the at(Error) test",
-          msg="ParserBase::save no longer fetches the pending message exactly once under at(TokenKind::Error)")
+    save_guard(ck, prog, "R02.5")
     # (e) the preprocessor prefers its own slot, else delegates
     tb = prog.body("<syntax::preprocessor::PreProcessor<T> as syntax::token_stream::TokenStream>::take_error")
     ck.anchor(tb is not None, "PreProcessor::take_error not found")
@@ -655,3 +644,20 @@ def const_switch_unreachable(b, prog, pbb):
         if not vals or not vals <= arms:
             return None
     return "default arm of a match on a local that only ever holds constants with their own arms"
+
+
+def save_guard(ck, prog, rule):
+    """shared with C15: a pending lexer / preprocessor message is turned into a diagnostic only for an Error token that is
+    delivered (a message left behind by malformed text inside a disabled region is never reported)"""
+    # (d) in save, take_error is under at(Error); and Option::take is how slots are emptied
+    sb = prog.body(PB + "save")
+    ck.anchor(sb is not None, "ParserBase::save not found")
+    take_blocks = [i for i, t in sb.calls() if (t["f"].get("decl") or Body.callee(t)) == TS + "take_error"]
+    at_blocks = [i for i, t in sb.calls() if Body.callee(t) == PB + "at" and
+                 any((op_const(a) or {}).get("val", "").endswith("TokenKind::Error") or
+                     is_error_kind_local(sb, a) for a in t["args"])]
+    dom = cfg.dominators(sb)
+    ok = bool(take_blocks) and bool(at_blocks) and all(any(a in dom[tb] for a in at_blocks) for tb in take_blocks) \
+        and len(take_blocks) == 1
+    ck.ob(rule, "save-guard", ok, "save() fetches the message once, dominated by the at(Error) test",
+          msg="ParserBase::save no longer fetches the pending message exactly once under at(TokenKind::Error)")
